@@ -137,6 +137,21 @@ pub fn decode_values(k: Kind, tier: Tier) -> Vec<Vec<u8>> {
             for len in 0..=9usize {
                 out.push((0..len).map(|i| (0x10 + i) as u8).collect());
             }
+            // every list of up to 5 entries over three types (repeats, palindromes, runs at either end),
+            // with and without a trailing odd byte
+            let types: [u16; 3] = [0x0021, 0x8022, 0x0000];
+            for n in 0..=5u32 {
+                for mut code in 0..3u32.pow(n) {
+                    let mut v = Vec::new();
+                    for _ in 0..n {
+                        v.extend_from_slice(&types[(code % 3) as usize].to_be_bytes());
+                        code /= 3;
+                    }
+                    out.push(v.clone());
+                    v.push(0x21);
+                    out.push(v);
+                }
+            }
         }
         Kind::PasswordAlgorithm | Kind::PasswordAlgorithms => {
             let algos: [u16; 5] = [0, 1, 2, 3, 0xFFFF];
